@@ -855,6 +855,9 @@ func prepare(spec *MockSpec, col *collector) []task {
 func explore(t task, col *collector, rep *Report, mu *sync.Mutex, sl *slot) {
 	spec, ms, ops := t.spec, t.ms, t.ops
 	depth := spec.Depth
+	if len(ms) >= 4 && spec.Family != "shape" && depth > 3 {
+		depth-- // 4+ methods: alphabet of 33+ operations, one level less
+	}
 	st := &stats{}
 	states := map[string]struct{}{}
 	var histories int64
